@@ -216,6 +216,17 @@ Theorem crash_histories_safe : forall w dyn ops,
 Proof. exact crash_histories_thm. Qed.
 Print Assumptions crash_histories_safe.
 
+(* the same with storage faults before the crash: any plan, any crash point ... *)
+Theorem fault_crash_prefix_safe : forall w n now o plan k st, fresh n st -> gcodes_old n st -> no_code_twice st ->
+  no_code_twice (fst (fst (run_fault_prefix_log plan 0 k (handler w n now o) st))).
+Proof. exact fault_crash_prefix_safe_thm. Qed.
+Print Assumptions fault_crash_prefix_safe.
+(* ... and over all histories in which every request runs under its own fault plan and may be cut short *)
+Theorem faulty_histories_safe : forall w dyn ops,
+  no_code_twice (s_store (run_faulty w (init_state dyn) 0 ops)).
+Proof. exact faulty_histories_thm. Qed.
+Print Assumptions faulty_histories_safe.
+
 (* a crash between the delete of the code session and the save of the grant: the code is gone, no
    grant exists, nothing was answered; the restarted instance refuses the code *)
 Definition ex_sess : asession :=
